@@ -81,20 +81,23 @@ Definition count_of_clusters (s:st) : Z := (total_sectors s - first_data_sector 
 Definition max_cluster (s:st) : Z := count_of_clusters s + 1.
 
 (** * Chain follower ([get_cluster_chain]); at most as many clusters as the FAT has entries *)
-Definition is_data (t v:Z) : bool := (Gen.MIN_DATA_CLUSTER t <=? v) && (v <=? Gen.MAX_DATA_CLUSTER t).
+(** [dm]: the largest value that is followed as a link.  MAX_DATA_CLUSTER, except on volumes with (almost) the maximum
+    number of clusters of their type, whose last clusters have numbers beyond it (up to BAD_CLUSTER - 1) *)
+Definition is_data (t dm v:Z) : bool := (Gen.MIN_DATA_CLUSTER t <=? v) && (v <=? dm).
 Definition is_eoc (t v:Z) : bool :=
   ((t =? Gen.FAT_TYPE_FAT12) && (v =? Gen.FAT12_SPECIAL_EOC)) || ((Gen.END_OF_CLUSTER_MIN t <=? v) && (v <=? Gen.END_OF_CLUSTER_MAX t)).
-Fixpoint chain_go (fuel:nat) (t:Z) (fat:list Z) (i:Z) : list Z * bool :=
+Fixpoint chain_go (fuel:nat) (t dm:Z) (fat:list Z) (i:Z) : list Z * bool :=
   match fuel with
   | O => ([], false)
   | S f =>
     if (i <? Gen.MIN_DATA_CLUSTER t) || (lenZ fat <=? i) then ([], false) else
     let v := nthZ fat i in
-    if is_data t v then (let '(r, ok) := chain_go f t fat v in (i :: r, ok))
+    if is_data t dm v then (let '(r, ok) := chain_go f t dm fat v in (i :: r, ok))
     else if is_eoc t v then ([i], true) else ([], false)
   end.
+Definition dmax (s:st) : Z := Z.max (Gen.MAX_DATA_CLUSTER (ft s)) (Z.min (max_cluster s) (Gen.BAD_CLUSTER (ft s) - 1)).
 (** (clusters yielded before the generator stops, true iff it stopped at an end-of-chain mark) *)
-Definition chain (s:st) (c:Z) : list Z * bool := chain_go (length (s_fat s)) (ft s) (s_fat s) c.
+Definition chain (s:st) (c:Z) : list Z * bool := chain_go (length (s_fat s)) (ft s) (dmax s) (s_fat s) c.
 Definition chain_all (s:st) (c:Z) : res (list Z) :=
   let '(l, ok) := chain s c in if ok then Ok l else Err EPYFAT.
 
